@@ -124,6 +124,7 @@ func (a *aggregate) write() error {
 		"components_real":                a.plan.Real,
 		"components_stub":                a.plan.Stub,
 		"children_died":                  a.deaths,
+		"stalled_runs_inconclusive":      a.stalls,
 		"known_findings_hit":             a.knownHits,
 		"workload_warnings":              a.workloadWarnings(),
 		"exhaustive":                     false,
